@@ -102,3 +102,125 @@ EXPLANATION = "under construction"
 ASSUMPTIONS = []
 TRUSTED = []
 BOUNDED = [{"name": "four-declaration-styles-agree", "script": "bounded/b07_group_styles.py"}]
+
+
+# ------------------------------------------------------------------------------------------------ ActionsContainer.add_argument
+# where the declaration styles meet: an inner parser is attached by _move_parser_actions, a dataclass-like type becomes the class
+# arguments of *the option's own name* (leading dashes removed, nothing else rewritten - the same key the dotted style uses), every other
+# type goes to argparse with the type-hint action; a required option is recorded under its dest and enforced by the parser, not argparse.
+def ada_setup(ctx):
+    from pyvc.engine import ExcVal, PyRaise
+    style = ["inner-parser", "dataclass-type", "supported-typehint", "plain", "config-action", "no-type"][ctx.choose(6, "style")]
+    name = ["--g", "--my-grp", "--a.b_c", "pos"][ctx.choose(4, "name")]
+    required = ctx.choose(2, "required") == 1
+    extra = ["none", "default", "choices-set", "help"][ctx.choose(4, "extra")]
+    on_group = ctx.choose(2, "declared-on-a-group") == 1
+    the_type, inner_action = Rec("the declared type"), Rec("ActionParser instance")
+    kwargs = {}
+    if style == "inner-parser":
+        kwargs["action"] = inner_action
+    elif style == "config-action":
+        kwargs["action"] = Rec("ActionConfigFile class")
+    elif style != "no-type":
+        kwargs["type"] = the_type
+    if required and not name == "pos":
+        kwargs["required"] = True
+    if extra == "default":
+        kwargs["default"] = z3.Int("default")
+    elif extra == "choices-set":
+        kwargs["choices"] = {"x"}
+    elif extra == "help":
+        kwargs["help"] = "text"
+    required_args = set()
+    parser = Rec("ArgumentParser", attrs={"required_args": required_args, "_logger": Rec("Logger")})
+    moved, found = Rec("result of _move_parser_actions"), Rec("action found under the nested key")
+    made = []
+
+    def argparse_add(c, s_, a, k):
+        dest = a[0].lstrip("-").replace("-", "_")
+        act = Rec("Action", attrs={"dest": dest, "option_strings": [a[0]] if a[0].startswith("-") else [], "required": bool(k.get("required", False)), "help": k.get("help")})
+        made.append((a, dict(k), act))
+        c.event("argparse.add_argument", a, dict(k))
+        return act
+
+    self = Rec("ArgumentGroup" if on_group else "ArgumentParser", attrs=({"parser": parser, "_logger": parser.attrs["_logger"]} if on_group else parser.attrs),
+               methods={"add_class_arguments": lambda c, s_, a, k: c.event("add_class_arguments", a[0], a[1], dict(k))})
+    if not on_group:
+        parser = self
+        parser.attrs["required_args"] = required_args
+    prepared = ("--prepared",) if False else None
+
+    def prepare(c, a, k):
+        c.event("prepare", k["args"], dict(k["kwargs"]), k["enable_path"])
+        k["kwargs"]["action"] = Rec("ActionTypeHint for the type")
+        k["kwargs"].pop("type", None)
+        return k["args"]
+
+    calls = {
+        "ActionParser._is_valid_action_parser": lambda c, a, k: a[1] is inner_action,
+        "ActionParser._move_parser_actions": lambda c, a, k: (c.event("move", a[0], a[1], a[2]), moved)[1],
+        "ActionConfigFile._ensure_single_config_argument": lambda c, a, k: c.event("single-config-check", a[0], a[1]),
+        "is_dataclass_like": lambda c, a, k: style == "dataclass-type" and a[0] is the_type,
+        "_find_action": lambda c, a, k: (c.event("find", a[0], a[1]), found)[1],
+        "ActionTypeHint.is_supported_typehint": lambda c, a, k: style == "supported-typehint",
+        "ActionTypeHint.prepare_add_argument": prepare,
+        "super": lambda c, a, k: Rec("super()", methods={"add_argument": argparse_add}),
+        "ActionConfigFile._add_print_config_argument": lambda c, a, k: c.event("print_config-companion", a[1]),
+        "ActionJsonnet._check_ext_vars_action": lambda c, a, k: None,
+        "is_meta_key": lambda c, a, k: a[0] in ("__path__", "__default_config__"),
+    }
+    return Setup(env={"self": self, "args": (name,), "kwargs": kwargs, "enable_path": False}, calls=calls, consts={"empty_help": "<empty help>"},
+                 data=dict(style=style, name=name, required=required and name != "pos", extra=extra, on_group=on_group, parser=parser, the_type=the_type, moved=moved, found=found, made=made,
+                           required_args=required_args, kwargs0=dict(kwargs), self_=self))
+
+
+def ada_post(ctx, st, result):
+    d = st.data
+    tag = f"[{d['style']},{d['name']}{',required' if d['required'] else ''},{d['extra']}{',on a group' if d['on_group'] else ''}]"
+    ev = ctx.events
+    if d["style"] == "inner-parser":
+        mv = [e for e in ev if e[0] == "move"]
+        ctx.oblige("post", "an-inner-parser-is-attached-by-_move_parser_actions-on-the-parser,with-the-name-and-keywords-given" + tag,
+                   result is d["moved"] and len(mv) == 1 and mv[0][1] is d["parser"] and mv[0][2] == (d["name"],) and not d["made"])
+        return
+    if d["style"] == "dataclass-type":
+        ca = [e for e in ev if e[0] == "add_class_arguments"]
+        key = d["name"].lstrip("-")
+        want_kw = {k: v for k, v in d["kwargs0"].items() if k != "type"}
+        ok = len(ca) == 1 and ca[0][1] is d["the_type"] and ca[0][2] == key and set(ca[0][3]) == set(want_kw) and all(ca[0][3][k] is want_kw[k] or ca[0][3][k] == want_kw[k] for k in want_kw)
+        ctx.oblige("post", "a-dataclass-like-type-becomes-the-class-arguments-of-the-option's-own-name(leading dashes removed,nothing else rewritten),with-the-other-keywords" + tag, ok)
+        fd = [e for e in ev if e[0] == "find"]
+        ctx.oblige("post", "what-is-returned-is-the-action-found-under-that-same-key" + tag, result is d["found"] and len(fd) == 1 and fd[0][1] is d["parser"] and fd[0][2] == key and not d["made"])
+        return
+    ctx.oblige("post", "argparse-declares-the-argument-exactly-once" + tag, len(d["made"]) == 1)
+    if len(d["made"]) != 1:
+        return
+    a, kw, act = d["made"][0]
+    ctx.oblige("post", "under-the-name-given" + tag, a == (d["name"],) and result is act)
+    if d["style"] == "supported-typehint":
+        pr = [e for e in ev if e[0] == "prepare"]
+        ctx.oblige("post", "a-supported-type-hint-is-handed-to-the-type-hint-action(prepare_add_argument)" + tag, len(pr) == 1 and "type" not in kw and isinstance(kw.get("action"), Rec))
+    elif d["style"] in ("plain",):
+        ctx.oblige("post", "an-unsupported-type-goes-to-argparse-as-given" + tag, kw.get("type") is d["the_type"])
+    if d["extra"] == "choices-set":
+        ctx.oblige("post", "choices-given-as-a-set-reach-argparse-as-a-tuple" + tag, kw.get("choices") == ("x",))
+    if d["required"]:
+        ctx.oblige("post", "a-required-option-is-recorded-under-its-dest-and-enforced-by-this-parser(argparse's own flag is cleared)" + tag,
+                   d["required_args"] == {act.attrs["dest"]} and act.attrs.get("_required") is True and act.attrs["required"] is False)
+    else:
+        ctx.oblige("post", "not-required=>not-recorded" + tag, not d["required_args"] and "_required" not in act.attrs)
+    ctx.oblige("post", "a-missing-help-text-is-replaced-by-the-empty-help-marker" + tag, act.attrs["help"] == ("text" if d["extra"] == "help" else "<empty help>"))
+    if d["style"] == "config-action":
+        ctx.oblige("post", "a-config-action-is-checked-to-be-the-only-one" + tag, len([e for e in ev if e[0] == "single-config-check"]) == 1)
+    ctx.oblige("post", "accepted=>not-a-positional-with-a-default" + tag, not (d["name"] == "pos" and d["extra"] == "default"))
+
+
+def ada_raises(ctx, st, exc):
+    d = st.data
+    ctx.oblige("raises", f"only-a-positional-with-a-default(or a meta key)-is-refused[{d['style']},{d['name']},{d['extra']}](got {exc.cls})",
+               exc.cls == "ValueError" and d["name"] == "pos" and d["extra"] == "default" and d["style"] not in ("inner-parser", "dataclass-type"))
+
+
+UNITS.append(Unit("C07", "jsonargparse._core:ActionsContainer.add_argument", ada_setup, ada_post, ada_raises, max_paths=20000, expect_cover=("return", "raise:ValueError"),
+                  trusted=["argparse's add_argument (super()) creates the action: dest = name without leading dashes, '-' -> '_'", "add_class_arguments / _move_parser_actions / prepare_add_argument by contract",
+                           "is_dataclass_like / is_supported_typehint classify the type"]))
